@@ -51,6 +51,9 @@ static void assume_objects(ref a, ref b, ref c, ref d)
 void h_cache_two_queries(void)
 {
     ref in_self, in_p1, in_p2, in_q1, in_q2;
+    havoc_heap(); /* every object field the lowered code reads - also one a change starts to read - is arbitrary */
+    for (unsigned k = 0; k < HEAP_N; ++k)
+        __alive[k] = nondet_bool(); /* ... and so is which objects are still alive (weak_ptr::lock()) */
     __CPROVER_havoc_object(Rtab);
     __CPROVER_havoc_object(__addr);
     __CPROVER_assume(in_self != 0 && in_self < HEAP_N);
